@@ -164,6 +164,40 @@ where
         pm.coeffs().push(from(5));
         ensure!(pm.size() == a.len() + 1 && pm[a.len()].ieq(&from(5)) && veq(&coeffs_of(&pa), a), "coeffs() does not expose the coefficient vector of this polynomial only");
     }
+    // operands whose coefficient vectors hold SPARE CAPACITY (built by pushes into a larger allocation; three coefficients pushed
+    // and popped again through coeffs()): the consuming operators may reuse an operand's buffer, the result must not depend on it
+    {
+        let slack = |v: &[T], route: usize| -> Polynomial<T> {
+            if route == 0 {
+                let mut w: Vec<T> = Vec::with_capacity(v.len() + 9);
+                w.extend_from_slice(v);
+                Polynomial::new(w)
+            } else {
+                let mut q = Polynomial::new(v.to_vec());
+                for _ in 0..3 {
+                    q.coeffs().push(from(5));
+                }
+                for _ in 0..3 {
+                    q.coeffs().pop();
+                }
+                q
+            }
+        };
+        for route in 0..2usize {
+            let what = ["operand built with spare capacity", "operand after push x3 / pop x3"][route];
+            same(&(slack(a, route) + pb.clone()), &m_add(a, b), Some(a.len().max(b.len())), &format!("a + b, left {}", what))?;
+            same(&(pa.clone() + slack(b, route)), &m_add(a, b), Some(a.len().max(b.len())), &format!("a + b, right {}", what))?;
+            same(&(slack(a, route) + slack(b, 1 - route)), &m_add(a, b), Some(a.len().max(b.len())), &format!("a + b, both {}", what))?;
+            same(&(slack(a, route) - pb.clone()), &m_sub(a, b), Some(a.len().max(b.len())), &format!("a - b, left {}", what))?;
+            same(&(pa.clone() - slack(b, route)), &m_sub(a, b), Some(a.len().max(b.len())), &format!("a - b, right {}", what))?;
+            same(&(slack(a, route) * slack(b, route)), &m_mul(a, b), Some(natural), &format!("a * b, both {}", what))?;
+            same(&(-slack(a, route)), &neg, Some(a.len()), &format!("-a, {}", what))?;
+            same(&(&slack(a, route) + &pb), &m_add(a, b), Some(a.len().max(b.len())), &format!("&a + &b, left {}", what))?;
+            if !a.is_empty() {
+                same(&slack(a, route).derivative(), &m_deriv(a, from.as_ref()), Some(a.len() - 1), &format!("derivative(), {}", what))?;
+            }
+        }
+    }
     // operands untouched, clone equal
     ensure!(veq(&coeffs_of(&pa), a) && veq(&coeffs_of(&pb), b), "operands modified");
     ensure!(veq(&coeffs_of(&pa.clone()), a), "clone differs");
